@@ -31,6 +31,17 @@ type scen struct {
 	Ctx       string `json:"ctx"`       // none | cancel | deadline | timeout (stdio: the transport's own timer)
 	Where     string `json:"where"`     // legacy SSE: stream | post ; otherwise ""
 	CloseLive bool   `json:"closeLive"` // stdio: Close() is called while the child is alive
+	// Fault "linger" (streamSse): the peer writes the complete final answer frame on the POST's event stream and keeps the
+	// stream open (the model's reading of it is that of "none": without a handler the call owns nothing on the stream once it
+	// has its answer; with a handler the reader drains until the stream ends, which the peer does a moment later).
+	KeepAlive bool `json:"keepAlive"` // linger: an SSE comment every 100 ms while the stream is kept open (ignored by the model)
+	Helper    bool `json:"helper"`    // stdio: the child first starts a helper process that inherits its stderr and outlives it (ignored by the model)
+}
+
+// classKey: scenarios that share the code path of their calls (once a hang of a class is confirmed the rest of the class is
+// run with short ceilings, then skipped).
+func (s scen) classKey() string {
+	return fmt.Sprintf("%s/handlers=%v/helper=%v", s.T, s.Handlers, s.Helper)
 }
 
 func (s scen) op() map[string]any {
@@ -78,22 +89,72 @@ type callRes struct {
 }
 
 const (
-	latencyCeiling = 2 * time.Second
-	hangCeilingMax = 6 * time.Second
+	latencyCeiling = 2 * time.Second // a pending call has its error this long after the fault / the end of its context
+	answerCeiling  = 1 * time.Second // a call has returned this long after its complete answer (and, where its reader drains the stream, the end of the stream) was written
+	hangCeilingMax = 6 * time.Second // a call that has not returned this long after the fault is abandoned: "hung"
+	answerHangMax  = 3 * time.Second // … this long after its complete answer was written
+	helperHangMax  = latencyCeiling + 500*time.Millisecond
 	settleCeiling  = 2 * time.Second
+	closeCeiling   = 8 * time.Second // Close() (a broken stdio Close stalls 5 s and is reported by other oracles)
+	initCeiling    = 10 * time.Second
 )
 
 var nonceCtr atomic.Int64
 
-// hangCeiling: how long a scenario waits for a call before it calls it hung; shortened for a transport once a hang of
-// that transport has been confirmed by the solo re-runs (a broken tree would otherwise cost 6 s per scenario).
-var hangCeilings = map[string]time.Duration{}
+// Every scenario is bounded in time whatever the library does: Initialize by its context, every call by a hang ceiling
+// (the goroutine of a call that does not return is abandoned and the peer is torn down), Close() by closeCeiling.
+// Once a hang of a class of scenarios has been confirmed by the solo re-runs the class runs with short ceilings (a broken
+// tree would otherwise cost 6 s per scenario) and is skipped after a few more occurrences (see run).
+var shortened = map[string]bool{}
 
-func hangCeiling(tag string) time.Duration {
-	if d, ok := hangCeilings[tag]; ok {
-		return d
+func hangCeiling(sc scen) time.Duration {
+	switch {
+	case shortened[sc.classKey()]:
+		return latencyCeiling + 300*time.Millisecond
+	case sc.Helper:
+		return helperHangMax
 	}
 	return hangCeilingMax
+}
+
+func answerHang(sc scen) time.Duration {
+	if shortened[sc.classKey()] {
+		return answerCeiling + 300*time.Millisecond
+	}
+	return answerHangMax
+}
+
+// bounded runs fn in a goroutine of its own and waits at most d for it; false = fn has not returned (it is abandoned).
+func bounded(d time.Duration, fn func()) bool {
+	done := make(chan struct{})
+	go func() { defer close(done); fn() }()
+	select {
+	case <-done:
+		return true
+	case <-time.After(d):
+		return false
+	}
+}
+
+// initBounded: the handshake, with a context of initCeiling and abandoned 2 s after that if the library ignores the context.
+func initBounded(cl interface {
+	Initialize(context.Context, *mcp.InitializeRequest) (*mcp.InitializeResult, error)
+}) error {
+	ctx, cancel := context.WithTimeout(context.Background(), initCeiling)
+	defer cancel()
+	ch := make(chan error, 1)
+	go func() { _, err := cl.Initialize(ctx, nil); ch <- err }()
+	select {
+	case err := <-ch:
+		return err
+	case <-time.After(initCeiling + 2*time.Second):
+		return fmt.Errorf("Initialize did not return %v after its context ended", 2*time.Second)
+	}
+}
+
+// isHangFp: fingerprints of the "a call does not return (in time)" family.
+func isHangFp(fp string) bool {
+	return strings.Contains(fp, ":call_never_returns") || strings.Contains(fp, ":returns_late_") || strings.Contains(fp, ":call_returns_late_") || strings.HasSuffix(fp, ":close_never_returns")
 }
 
 func callTool(ctx context.Context, call func(context.Context, *mcp.CallToolRequest) (*mcp.CallToolResult, error), nonce string) callRes {
@@ -116,14 +177,26 @@ func callTool(ctx context.Context, call func(context.Context, *mcp.CallToolReque
 }
 
 // judge turns the raw results into classes (by arrival order) and checks the model-free oracles.
-func judge(sc scen, order []string, res map[string]callRes, hung map[string]bool, t0 time.Time, expectErrAfterFault func(i int) bool) ([]string, []problem) {
+// t0: when the fault / the end of the context happened (zero: no such event); ansAt: per nonce, when the call's complete
+// answer (and, where its reader drains the stream, the proper end of the stream) had been written by the peer.
+func judge(sc scen, order []string, res map[string]callRes, hung map[string]bool, t0 time.Time, ansAt map[string]time.Time, expectErrAfterFault func(i int) bool) ([]string, []problem) {
 	var probs []problem
 	classes := make([]string, len(order))
 	tag := sc.transportTag()
 	for i, nonce := range order {
+		at, answered := ansAt[nonce]
 		if hung[nonce] {
 			classes[i] = "hung"
-			probs = append(probs, problem{fp: "calls:" + tag + ":call_never_returns", what: "a pending call did not return after the fault (waited " + hangCeiling(tag).String() + ")", observed: map[string]any{"call": i}})
+			switch {
+			case answered:
+				probs = append(probs, problem{fp: "calls:" + tag + ":call_never_returns_after_answer", what: "a call whose complete final answer the peer had written did not return (abandoned after " + answerHang(sc).String() + ")" + map[bool]string{true: "; the peer keeps the POST's event stream open after the answer frame", false: ""}[sc.T == "streamSse"],
+					observed: map[string]any{"call": i, "handlers_registered": sc.Handlers, "waited_ms": time.Since(at).Milliseconds()}})
+			case sc.Helper:
+				probs = append(probs, problem{fp: "calls:stdio:call_returns_late_after_child_death", what: "the child process is dead (a helper process it had started still holds its stderr) but a pending call had not returned " + hangCeiling(sc).String() + " later",
+					observed: map[string]any{"call": i, "child_ended_by": sc.Fault}})
+			default:
+				probs = append(probs, problem{fp: "calls:" + tag + ":call_never_returns", what: "a pending call did not return after the fault (waited " + hangCeiling(sc).String() + ")", observed: map[string]any{"call": i}})
+			}
 			continue
 		}
 		r := res[nonce]
@@ -131,7 +204,11 @@ func judge(sc scen, order []string, res map[string]callRes, hung map[string]bool
 			classes[i] = "err"
 			if !t0.IsZero() && expectErrAfterFault(i) {
 				if lat := r.at.Sub(t0); lat > latencyCeiling {
-					probs = append(probs, problem{fp: "calls:" + tag + ":slow_return", what: "a pending call returned its error later than the ceiling after the fault",
+					fp := "calls:" + tag + ":slow_return"
+					if sc.Helper {
+						fp = "calls:stdio:call_returns_late_after_child_death"
+					}
+					probs = append(probs, problem{fp: fp, what: "a pending call returned its error later than the ceiling after the fault",
 						observed: map[string]any{"call": i, "latency_ms": lat.Milliseconds(), "error": r.err.Error()}})
 				}
 			}
@@ -141,6 +218,12 @@ func judge(sc scen, order []string, res map[string]callRes, hung map[string]bool
 		if r.text != "echo:"+nonce {
 			probs = append(probs, problem{fp: "calls:" + tag + ":wrong_result", what: "a call returned without an error but not with its own complete answer",
 				observed: map[string]any{"call": i, "want": "echo:" + nonce, "got": r.text}})
+		}
+		if answered {
+			if lat := r.at.Sub(at); lat > answerCeiling {
+				probs = append(probs, problem{fp: "calls:" + tag + ":returns_late_after_answer", what: "a call returned its answer, but only long after the peer had written the complete answer frame (the peer kept the stream open)",
+					observed: map[string]any{"call": i, "handlers_registered": sc.Handlers, "latency_ms": lat.Milliseconds()}})
+			}
 		}
 	}
 	return classes, probs
@@ -168,12 +251,10 @@ func runHTTP(sc scen) (observation, []problem) {
 	if err != nil {
 		panic(err)
 	}
-	ictx, icancel := context.WithTimeout(context.Background(), 10*time.Second)
-	_, err = cl.Initialize(ictx, nil)
-	icancel()
+	err = initBounded(cl)
 	if err != nil {
 		p.shutdown()
-		cl.Close()
+		bounded(closeCeiling, func() { cl.Close() })
 		return observation{}, []problem{{fp: "calls:harness:init_failed", what: "handshake with the scripted peer failed: " + err.Error()}}
 	}
 	if sc.Handlers {
@@ -208,7 +289,7 @@ func runHTTP(sc scen) (observation, []problem) {
 		case <-barrier:
 			p.shutdown()
 			cancel()
-			cl.Close()
+			bounded(closeCeiling, func() { cl.Close() })
 			return observation{}, []problem{{fp: "calls:harness:barrier", what: fmt.Sprintf("only %d of %d requests reached the peer", len(arr), sc.N)}}
 		}
 	}
@@ -221,6 +302,15 @@ func runHTTP(sc scen) (observation, []problem) {
 	}
 	// the script
 	res := map[string]callRes{}
+	ansAt := map[string]time.Time{} // when a call's complete answer (and the proper end of its stream, where the reader drains it) was out
+	var kas []*keepAlive
+	stopKeepAlives := func() {
+		for _, k := range kas {
+			k.end()
+		}
+		kas = nil
+	}
+	defer stopKeepAlives()
 	write := func(a *arrival, s string) {
 		c := a.conn
 		if sc.T == "sse" && sc.Where != "post" {
@@ -237,7 +327,8 @@ func runHTTP(sc scen) (observation, []problem) {
 			}
 			writeAll(p.stream, ra.body)
 		case sc.T == "streamSse" && !sc.Handlers:
-			// the result is out, the stream itself stays open until the end of the scenario ("ends a moment after the result")
+			// the result is out, the stream itself stays open until the end of the scenario: without a handler the call owns
+			// nothing on the stream once it has its answer, it returns without waiting for the peer to end the stream
 			writeAll(a.conn, ra.prefix(-1, len(ra.body)))
 		default:
 			writeAll(a.conn, ra.complete())
@@ -245,21 +336,50 @@ func runHTTP(sc scen) (observation, []problem) {
 				a.conn.Close() // until-EOF framing: the proper end of the stream is the peer's FIN
 			}
 		}
+		ansAt[a.nonce] = time.Now()
+	}
+	// linger: the complete answer frame, then the stream is kept open (silently, or with a comment every 100 ms); where the
+	// reader drains the stream (a handler is registered) the peer ends the stream properly after lingerHold
+	lingerAnswers := func(as []*arrival) {
+		var ras []rawAnswer
+		for _, a := range as {
+			ra := buildAnswer(sc.T, sc.Framing, sc.Handlers, a)
+			ras = append(ras, ra)
+			writeAll(a.conn, ra.prefix(-1, len(ra.body)))
+			if !sc.Handlers {
+				ansAt[a.nonce] = time.Now()
+			}
+			if sc.KeepAlive {
+				kas = append(kas, startKeepAlive(a.conn, ra.chunked))
+			}
+		}
+		if !sc.Handlers {
+			return // the stream stays open until the teardown of the scenario
+		}
+		time.Sleep(lingerHold) // part of the script (how long the peer lingers), not a synchronisation
+		stopKeepAlives()
+		for i, a := range as {
+			if ras[i].chunked {
+				writeAll(a.conn, "0\r\n\r\n")
+			} else {
+				a.conn.Close()
+			}
+			ansAt[a.nonce] = time.Now()
+		}
 	}
 	for i := 0; i < sc.Answered && i < len(arr); i++ {
 		answerFully(arr[i])
 	}
-	// the answered calls return before the fault is injected (a reset could otherwise destroy their unread answers)
-	waitAnswered := time.After(5 * time.Second)
-	for len(res) < sc.Answered {
+	// the answered calls return before the fault is injected (a reset could otherwise destroy their unread answers); one that
+	// does not is an observation (hung after its answer), the script goes on for the others
+	answeredHung := 0
+	waitAnswered := time.After(answerHang(sc))
+	for len(res) < sc.Answered && answeredHung == 0 {
 		select {
 		case r := <-results:
 			res[r.nonce] = r
 		case <-waitAnswered:
-			p.shutdown()
-			cancel()
-			cl.Close()
-			return observation{}, []problem{{fp: "calls:harness:answered_barrier", what: "an answered call did not return"}}
+			answeredHung = sc.Answered - len(res)
 		}
 	}
 	var t0 time.Time
@@ -273,6 +393,8 @@ func runHTTP(sc scen) (observation, []problem) {
 			for _, b := range arr[sc.Answered:] {
 				answerFully(b)
 			}
+		case sc.Fault == "linger":
+			lingerAnswers(arr[sc.Answered:])
 		case sc.Fault == "http500":
 			for _, b := range arr[sc.Answered:] {
 				writeAll(b.conn, "HTTP/1.1 500 Internal Server Error\r\nContent-Type: text/plain\r\nContent-Length: 8\r\n\r\ninjected")
@@ -323,7 +445,7 @@ func runHTTP(sc scen) (observation, []problem) {
 	if sc.Ctx == "deadline" && time.Now().After(deadline.Add(-50*time.Millisecond)) {
 		p.shutdown()
 		cancel()
-		cl.Close()
+		bounded(closeCeiling, func() { cl.Close() })
 		return observation{}, []problem{{fp: "calls:harness:deadline_too_early", what: "the deadline passed before the script had acted"}}
 	}
 	switch sc.Ctx {
@@ -333,9 +455,27 @@ func runHTTP(sc scen) (observation, []problem) {
 	case "deadline":
 		t0 = deadline
 	}
-	// collect
+	// collect: every call is waited for with a ceiling (the complete answer is out: answerHang; otherwise hangCeiling after the
+	// fault); what has not returned then is "hung" and is abandoned
 	hung := map[string]bool{}
-	hangT := time.After(hangCeiling(sc.transportTag()))
+	ceil := hangCeiling(sc)
+	outstandingAnswered := true
+	for _, n := range order {
+		if _, done := res[n]; !done {
+			if _, ok := ansAt[n]; !ok {
+				outstandingAnswered = false
+			}
+		}
+	}
+	switch {
+	case answeredHung > 0 && outstandingAnswered: // the scenario has failed already; only the other calls' classes are of interest
+		ceil = answerCeiling + 300*time.Millisecond
+	case answeredHung > 0:
+		ceil = latencyCeiling + 300*time.Millisecond
+	case outstandingAnswered:
+		ceil = answerHang(sc)
+	}
+	hangT := time.After(ceil)
 collect:
 	for len(res) < sc.N {
 		select {
@@ -354,7 +494,7 @@ collect:
 			break collect
 		}
 	}
-	classes, jp := judge(sc, order, res, hung, t0, func(i int) bool { return i >= sc.Answered })
+	classes, jp := judge(sc, order, res, hung, t0, ansAt, func(i int) bool { return i >= sc.Answered })
 	probs = append(probs, jp...)
 	obs := observation{Calls: classes}
 	if len(hung) == 0 {
@@ -363,7 +503,8 @@ collect:
 			probs = append(probs, problem{fp: "calls:" + sc.transportTag() + ":pending_not_empty", what: "all calls have returned but the pending table is not empty", observed: obs.Pending})
 		}
 	}
-	// (a broken tree only) calls that hang are given their context's end first, so that Close() does not race with them
+	// (a broken tree only) calls that hang are given their context's end first, so that Close() does not race with them; the
+	// ones that do not return then are abandoned (the teardown of the peer ends their connections)
 	if len(hung) > 0 {
 		cancel()
 		unblock := time.After(time.Second)
@@ -378,7 +519,10 @@ collect:
 		}
 	}
 	// Close, then everything the peer holds goes away, then the census
-	cl.Close()
+	stopKeepAlives()
+	if !bounded(closeCeiling, func() { cl.Close() }) {
+		probs = append(probs, problem{fp: "calls:" + sc.transportTag() + ":close_never_returns", what: "Close() had not returned after " + closeCeiling.String() + " (abandoned)", observed: map[string]any{"calls_hung_before": len(hung)}})
+	}
 	tr.CloseIdleConnections()
 	p.shutdown()
 	after := settle(base, settleCeiling)
@@ -492,20 +636,48 @@ func runStdio(sc scen, dir string) (observation, []problem) {
 	if sc.Where == "afterInit" {
 		cs.Need = 0
 	}
+	if sc.Helper {
+		cs.Helper = helperSleepS
+	}
 	b, _ := json.Marshal(cs)
 	timeout := 20 * time.Second
 	if sc.Ctx == "timeout" {
 		timeout = 300 * time.Millisecond
 	}
+	// the helper process the child starts (sc.Helper): the child reports its pid on the marker FIFO before anything else; it is
+	// killed at the end of the scenario whatever happens (and leaves by itself after helperSleepS seconds)
+	helperPid := 0
+	noteLine := func(l string) {
+		if strings.HasPrefix(l, "helper ") {
+			fmt.Sscanf(l, "helper %d", &helperPid)
+		}
+	}
+	killHelper := func() {
+		for { // a marker that was not read yet
+			select {
+			case l := <-q.ch:
+				noteLine(l)
+				continue
+			default:
+			}
+			break
+		}
+		if helperPid > 0 {
+			syscall.Kill(helperPid, syscall.SIGKILL)
+			for dl := time.Now().Add(settleCeiling); time.Now().Before(dl) && childState(helperPid) != "" && childState(helperPid) != "Z"; {
+				time.Sleep(200 * time.Microsecond)
+			}
+			helperPid = 0
+		}
+	}
+	defer killHelper()
 	var spins atomic.Int64
 	cl, err := mcp.NewStdioClient(mcp.StdioTransportConfig{ServerParams: mcp.StdioServerParameters{Command: selfExe(), Env: map[string]string{childEnv: string(b)}}, Timeout: timeout},
 		mcp.Implementation{Name: "verif", Version: "1"}, mcp.WithStdioLogger(spinLogger{n: &spins}))
 	if err != nil {
 		panic(err)
 	}
-	ictx, icancel := context.WithTimeout(context.Background(), 10*time.Second)
-	_, err = cl.Initialize(ictx, nil)
-	icancel()
+	err = initBounded(cl)
 	pid := cl.GetProcessID()
 	if err != nil {
 		if pid > 0 {
@@ -529,6 +701,7 @@ func runStdio(sc scen, dir string) (observation, []problem) {
 		for {
 			select {
 			case l := <-q.ch:
+				noteLine(l)
 				if strings.HasPrefix(l, "ready ") {
 					break waitExit
 				}
@@ -552,6 +725,8 @@ func runStdio(sc scen, dir string) (observation, []problem) {
 	// "ready", fault) when the parent says so: after the answered calls have returned
 	var t0 time.Time
 	res := map[string]callRes{}
+	var answeredAt time.Time // when the child had written the answers of the answered calls
+	answeredHung := 0
 	if sc.Where == "afterInit" {
 		t0 = issued
 	}
@@ -561,16 +736,19 @@ func runStdio(sc scen, dir string) (observation, []problem) {
 		for !ready {
 			select {
 			case l := <-q.ch:
+				noteLine(l)
 				if strings.HasPrefix(l, "answered ") {
-					for len(res) < sc.Answered {
+					var ns int64
+					fmt.Sscanf(l, "answered %d", &ns)
+					answeredAt = time.Unix(0, ns)
+					// an answered call that does not return is an observation (hung after its answer); the script goes on
+					waitAnswered := time.After(answerHang(sc))
+					for len(res) < sc.Answered && answeredHung == 0 {
 						select {
 						case r := <-results:
 							res[r.nonce] = r
-						case <-barrier:
-							syscall.Kill(pid, syscall.SIGKILL)
-							cancel()
-							go cl.Close()
-							return observation{}, []problem{{fp: "calls:harness:answered_barrier", what: "an answered call did not return"}}
+						case <-waitAnswered:
+							answeredHung = sc.Answered - len(res)
 						}
 					}
 					goF.WriteString("go\n")
@@ -588,6 +766,12 @@ func runStdio(sc scen, dir string) (observation, []problem) {
 				return observation{}, []problem{{fp: "calls:harness:barrier", what: "the child never reported ready"}}
 			}
 		}
+		if sc.Helper && helperPid <= 0 {
+			syscall.Kill(pid, syscall.SIGKILL)
+			cancel()
+			go cl.Close()
+			return observation{}, []problem{{fp: "calls:harness:helper_not_started", what: "the child could not start its helper process"}}
+		}
 	}
 	switch {
 	case sc.Fault == "kill":
@@ -602,7 +786,11 @@ func runStdio(sc scen, dir string) (observation, []problem) {
 		t0 = issued.Add(timeout)
 	}
 	hung := map[string]bool{}
-	hangT := time.After(hangCeiling(sc.transportTag()))
+	ceil := hangCeiling(sc)
+	if answeredHung > 0 {
+		ceil = latencyCeiling + 300*time.Millisecond // the scenario has failed already; only the other calls' classes are of interest
+	}
+	hangT := time.After(ceil)
 collect:
 	for len(res) < sc.N {
 		select {
@@ -614,13 +802,59 @@ collect:
 					hung[n] = true
 				}
 			}
+			if os.Getenv("VERIF_CALLS_DEBUG") != "" {
+				buf := make([]byte, 1<<20)
+				os.Stderr.Write(buf[:runtime.Stack(buf, true)])
+			}
 			break collect
 		}
 	}
 	// arrival order at the child = order of the request ids = order in which the calls took their ids; the calls are
 	// symmetric, so classes are reported with the answered ones first (the child answers the first `Answered` it read)
 	order := orderByOutcome(nonces, res, hung)
-	classes, jp := judge(sc, order, res, hung, t0, func(i int) bool { return i >= sc.Answered })
+	ansAt := map[string]time.Time{}
+	if !answeredAt.IsZero() {
+		// which of the symmetric calls were the answered ones is visible only through their results; of the hung ones as many as
+		// answered calls are missing count as answered
+		k := 0
+		for _, n := range order {
+			if r, done := res[n]; done && r.err == nil && k < sc.Answered {
+				ansAt[n] = answeredAt
+				k++
+			}
+		}
+		for _, n := range order {
+			if hung[n] && k < sc.Answered {
+				ansAt[n] = answeredAt
+				k++
+			}
+		}
+	}
+	classes, jp := judge(sc, order, res, hung, t0, ansAt, func(i int) bool { return i >= sc.Answered })
+	// the helper goes now; do the calls it was holding up return then? (what tells "late" from "never")
+	if sc.Helper {
+		killHelper()
+		if len(hung) > 0 {
+			released := 0
+			rel := time.After(time.Second)
+		released:
+			for len(res) < sc.N {
+				select {
+				case r := <-results:
+					res[r.nonce] = r
+					released++
+				case <-rel:
+					break released
+				}
+			}
+			for i := range jp {
+				if m, ok := jp[i].observed.(map[string]any); ok {
+					m["calls_hung"] = len(hung)
+					m["of_which_returned_within_1s_of_the_helpers_end"] = released
+				}
+			}
+		}
+	}
 	probs = append(probs, jp...)
 	obs := observation{Calls: classes}
 	if len(hung) == 0 {
@@ -661,7 +895,8 @@ collect:
 		waitGone(base, "processWatcher")
 	}
 	if len(hung) > 0 {
-		// (a broken tree only) calls that hang are given their context's end first, so that Close() does not race with them
+		// (a broken tree only) calls that hang are given their context's end first, so that Close() does not race with them;
+		// the ones that do not return then are abandoned
 		cancel()
 		unblock := time.After(time.Second)
 	drainHung:
@@ -674,7 +909,12 @@ collect:
 			}
 		}
 	}
-	cl.Close()
+	if !bounded(closeCeiling, func() { cl.Close() }) {
+		probs = append(probs, problem{fp: "calls:stdio:close_never_returns", what: "Close() had not returned after " + closeCeiling.String() + " (abandoned)", observed: map[string]any{"calls_hung_before": len(hung)}})
+		if st := childState(pid); st != "" && st != "Z" {
+			syscall.Kill(pid, syscall.SIGKILL) // harness hygiene
+		}
+	}
 	after := settle(base, settleCeiling)
 	left := after.diffLib(base)
 	for k, v := range left {
